@@ -21,7 +21,7 @@ PROPS = {
     "C14": dict(level="model_checking", systems=["bloom", "cbf", "cms", "exp", "cuckoo", "qf", "disk", "pair"]),
     "C15": dict(level="model_checking", systems=["cuckoo"]),
     "C16": dict(level="model_checking", systems=["sat"]),
-    "C17": dict(level="model_checking", systems=["hh"]),
+    "C17": dict(level="model_checking", systems=["cms"]),
     "C18": dict(level="exploration", systems=["hashes"]),
     "C19": dict(level="model_checking", systems=["bloom", "cbf", "cms", "exp", "cuckoo", "qf", "disk"]),
     "C20": dict(level="model_checking", systems=["bits"]),
@@ -38,7 +38,6 @@ _MODULES = {
     "disk": "mc.systems.disk",
     "pair": "mc.systems.pair",
     "sat": "mc.systems.sat",
-    "hh": "mc.systems.hh",
     "geom": "mc.systems.geom",
     "hashes": "mc.systems.hashes",
 }
